@@ -3,7 +3,10 @@
 A random history of 1-12 public queries is run on ONE automaton instance.  Every answer is compared
 (a) with the same query on a fresh copy of the automaton (history independence, observed on the
 implementation alone) and (b) with the extracted state-machine model of the object
-(coq/Model/Cache.v: step along the same history) and the stateless C13 models (pure)."""
+(coq/Model/Cache.v: step along the same history) and the stateless C13 models (pure).
+NFA histories the same way against coq/Model/NFACache.v (op 2 of property 20): the memo of
+`_get_lambda_closures` per instance, the answers along the history, the answers with every table
+recomputed, and the answers of the C01 / C09 / C07 / C08 models."""
 from __future__ import annotations
 
 import itertools
@@ -16,7 +19,9 @@ from props.common import load_def, mk_dfa, mk_nfa, outcome
 RULE = ("histories of 1-12 queries on one DFA instance (count/words for lengths 0..K incl. shorter-after-longer, "
         "words_of_length and iteration and successors abandoned after n items, random_word with seed, cardinality, len, "
         "min/max length, isempty, isfinite, clear_cache, interleaved accepts_input / == / <= / successor(s) / predecessor(s) with default and reversed symbol order) and on one NFA "
-        "instance (accepts_input, partially consumed read_input_stepwise, ==, DFA.from_nfa, eliminate_lambda); DFAs from "
+        "instance (accepts_input, partially consumed read_input_stepwise, ==, DFA.from_nfa, eliminate_lambda, reverse; compared with a fresh "
+        "copy AND with the memo model of coq/Model/NFACache.v: answers along the history, and cached_method's lru_cache in the instance's "
+        "__dict__ - filled or not after every query, its table after the history); DFAs from "
         "the C13 generators (random cyclic, acyclic finite-language, empty); one DFA history in five is run a second time "
         "on an instance built under allow_mutable_automata = True (plain dicts and sets kept); distinct = distinct (canonical automaton, "
         "history); non-trivial = history has >= 3 queries of which >= 2 touch a cache or a memo")
